@@ -236,8 +236,22 @@ def _is_zero(x):
     return isinstance(x, (int, float)) and x == 0
 
 
+_CALC = {}
+
+
 def _wire(raw):
+    """Bytes for the wire. Frames with symbolic content get their check bytes from the repo's own
+    calculate() over the reference span (same value as the reference CRC by C06's verdict): the
+    client's validate() then compares identical terms instead of posing a CRC-equivalence query
+    per frame. Fully concrete frames keep the reference CRC."""
     raw = list(raw)
     if all(isinstance(x, int) for x in raw):
         return bytes(raw)
-    return SymBytes(raw)
+    gen = 5 if (len(raw) > 4 and not isinstance(raw[3], SymInt) and raw[3] == 0xAB) else 4
+    import importlib
+    calc = _CALC.get("c")
+    if calc is None:
+        calc = _CALC["c"] = importlib.import_module("pyairtouch.comms.crc16").Crc16Modbus()
+    cs = framing.covered_start(gen)
+    chk = calc.calculate(SymBytes(raw[cs:-2]))
+    return SymBytes(raw[:-2] + list(chk))
